@@ -48,6 +48,8 @@ def strategy(tier):
         limits=st.sampled_from([0.0, 0.6]),
         frictionloss=st.sampled_from([0.0, 0.4]),
         sleep_policy=st.sampled_from([None, ["auto", "never", "allowed", "init"]]),
+        # long chains: kernels that split one row / one tree over several tasks (dense rows are cut into dof chunks above nv 20)
+        chains=st.sampled_from([[], [], [], [["mixed", 24]], [["hinge", 31]], [["star", 20]]]),
       ),
       opt=gen.option_strategy(integrators=("Euler", "implicitfast", "implicit")),
       sleep=st.sampled_from([False, False, True]),
